@@ -191,7 +191,8 @@ end
 
 /-! ### a small concrete semilattice: finite sets of probe points as bit masks -/
 
-/-- values = non-empty subsets of a finite probe universe, as bit masks; meet = ∩ -/
-def bits : Sl Nat := { meet := fun a b => if a &&& b = 0 then none else some (a &&& b), top := 0xFFFF }
+/-- values = non-empty subsets of a finite probe universe (up to 512 points), as bit masks;
+meet = ∩ -/
+def bits : Sl Nat := { meet := fun a b => if a &&& b = 0 then none else some (a &&& b), top := 0xFFFFFFFFFFFFFFFFFFFFFFFFFFFFFFFFFFFFFFFFFFFFFFFFFFFFFFFFFFFFFFFFFFFFFFFFFFFFFFFFFFFFFFFFFFFFFFFFFFFFFFFFFFFFFFFFFFFFFFFFFFFFFFFF }
 
 end CueVerif.Disj
